@@ -39,6 +39,17 @@ CLAIMS = {
              "I_j + G_(j+1) + not I_(j+1) must be refuted by a run the Lean machine accepts (C09_path_from_splits). Partial: no "
              "algorithm-level theorem for the path property of labelled interpolation systems is proved.",
         design_ref="5 C09"),
+    "C18": dict(
+        technique="Lean 4 proof (exit-status machine: status 0 iff no error response; chunk-independent framing of pipe input) tied by mutation fuzzing of the executable on a sanitizer build - partial",
+        text="PARTIAL: crash freedom, memory safety and termination are searched for by fuzzing on a sanitizer build and are not "
+             "proved; what is proved is the reporting contract. Theorems: in the exit-status machine the exit status is 0 exactly "
+             "when no error response was printed (C18_exit_zero_iff_no_error); the command frames of pipe input do not depend on how the bytes arrive. Tie and "
+             "search: generated scripts (11 logics, options, queries in wrong modes, division by zero, non-linear terms, arrays, "
+             "bit-vectors) and files of /repo/test/regression are mutated (byte deletion / insertion / flip, truncation, token and "
+             "line swaps, dropped declarations, huge numerals, deep nesting) and run as a file and through a pipe on the "
+             "ASan+UBSan build: status must be 0 or 1 with no sanitizer report and no timeout on scripts without check-sat, the "
+             "status must be 0 exactly when no diagnostic was printed, lexically broken input must get a diagnostic.",
+        design_ref="5 C18"),
     "C19": dict(
         technique="Lean 4 proof (front-end command machine: a rejected command is the identity; scripts equal their accepted sub-scripts) tied by differential runs of the executable with and without rejected commands and by comparison with the machine",
         text="Theorems: for every state and command of the front-end machine (flags, assertion levels, scoped names including "
